@@ -117,9 +117,12 @@ def oracle(run):
         if hit and st["rc"] == 0:
             # the files checkout has to produce from a corrupted object: committed with a digest in `hit`, and absent or a link now
             ws_prev, _ = s1eval.parse_snap(prev)
-            arts_ = [p for p, fl, sp in s1eval.artifacts(run["case"]) if "s" not in fl]
-            needs_read = [p for p, val in committed.items() if val[0] == "f" and val[1] in hit
-                          and any(p == a or p.startswith(a + b"/") for a in arts_)
+            # the files the artifacts TRACK (a non-recursive directory tracks its direct entries only)
+            tracked_ = set()
+            for ap_, fl_, sp_ in s1eval.artifacts(run["case"]):
+                if "s" not in fl_:
+                    tracked_ |= set(s1eval.logical(steps[0]["snap"], under=ap_, skip_dirs_top=("r" in fl_)))
+            needs_read = [p for p, val in committed.items() if val[0] == "f" and val[1] in hit and p in tracked_
                           and (p not in ws_prev or ws_prev[p][0] != "f")]
             ws_now, _ = s1eval.parse_snap(st["snap"])
             wrong = [p for p, val in ws_now.items() if val[0] == "f" and p in committed and committed[p][0] == "f" and committed[p][1] != val[1]
